@@ -181,13 +181,21 @@ class CGenerator:
             case _:
                 return self.visit(n)
 
+    def _visit_constant_expr(self, n: c_ast.Node) -> str:
+        # A constant-expression is a conditional-expression: a comma or
+        # assignment expression must keep its parentheses there.
+        s = self._visit_expr(n)
+        if isinstance(n, c_ast.Assignment):
+            return "(" + s + ")"
+        return s
+
     def visit_Decl(self, n: c_ast.Decl, no_type: bool = False) -> str:
         # no_type is used when a Decl is part of a DeclList, where the type is
         # explicitly only for the first declaration in a list.
         #
         s = n.name if no_type else self._generate_decl(n)
         if n.bitsize:
-            s += " : " + self._visit_expr(n.bitsize)
+            s += " : " + self._visit_constant_expr(n.bitsize)
         if n.init:
             s += " = " + self._visit_expr(n.init)
         return s
@@ -227,7 +235,7 @@ class CGenerator:
         return self._generate_struct_union_enum(n, name="enum")
 
     def visit_Alignas(self, n: c_ast.Alignas) -> str:
-        return "_Alignas({})".format(self._visit_expr(n.alignment))
+        return "_Alignas({})".format(self._visit_constant_expr(n.alignment))
 
     def visit_Enumerator(self, n: c_ast.Enumerator) -> str:
         if not n.value:
@@ -239,7 +247,7 @@ class CGenerator:
             return "{indent}{name} = {value},\n".format(
                 indent=self._make_indent(),
                 name=n.name,
-                value=self._visit_expr(n.value),
+                value=self._visit_constant_expr(n.value),
             )
 
     def visit_FuncDef(self, n: c_ast.FuncDef) -> str:
@@ -344,7 +352,7 @@ class CGenerator:
 
     def visit_StaticAssert(self, n: c_ast.StaticAssert) -> str:
         s = "_Static_assert("
-        s += self._visit_expr(n.cond)
+        s += self._visit_constant_expr(n.cond)
         if n.message:
             s += ","
             s += self.visit(n.message)
@@ -357,7 +365,7 @@ class CGenerator:
         return s
 
     def visit_Case(self, n: c_ast.Case) -> str:
-        s = "case " + self._visit_expr(n.expr) + ":\n"
+        s = "case " + self._visit_constant_expr(n.expr) + ":\n"
         for stmt in n.stmts:
             s += self._generate_stmt(stmt, add_indent=True)
         return s
@@ -392,7 +400,7 @@ class CGenerator:
             if isinstance(name, c_ast.ID):
                 s += "." + name.name
             else:
-                s += "[" + self._visit_expr(name) + "]"
+                s += "[" + self._visit_constant_expr(name) + "]"
         s += " = " + self._visit_expr(n.expr)
         return s
 
